@@ -260,3 +260,72 @@ def exhaustive(report, prop, depth, label="exhaustive"):
     report.obligation("corr:" + label, "correspondence", ok, f"all {nseq} event sequences of depth {depth} over a {len(ALPHABET)}-event alphabet x {len(configs)} configurations, every response compared")
     report.obligation("mon:" + label + "-no-panic", "monitor", nopanic, "no panic on any of them")
     return ok and nopanic
+
+
+
+def pubrel_race_family(report, prop, label="pubrel-race"):
+    """acknowledgements that arrive while the PUBREL of a QoS 2 publish is queued, half written or just written:
+    every buffer split x every ack kind x both versions; implementation = model on every response, and no panic"""
+    from gv import harness_batch
+    scripts = []
+    for v in ("5", "311"):
+        connack = "x20020000" if v == "311" else "x2003000000"
+        for cap in (4, 5, 6, 7, 8, 12):
+            for pre in range(0, cap + 1):
+                for ack in ("pubcomp", "pubrec-fail", "pubrec-again", "puback", "none"):
+                    for tail in ("svc", "wc-svc", "close-open"):
+                        if v == "311":
+                            pk = {"pubcomp": "x70020001", "pubrec-fail": "x50020001", "pubrec-again": "x50020001", "puback": "x40020001", "none": None}[ack]
+                        else:
+                            pk = {"pubcomp": "x70020001", "pubrec-fail": "x5003000180", "pubrec-again": "x50020001", "puback": "x40020001", "none": None}[ack]
+                        sc = [f"eng.new v={v} policy=all drain=none pingto=1000 resolver=none rmax=2 | ka=60 cid=x636c6b rm=10 rejoin=always",
+                              "eng.open t=0 deadline=1000", "eng.svc t=0 cap=4096 prefill=0", "eng.wc t=0", f"eng.data t=0 b={connack}",
+                              "eng.pub t=0 | publish pid=0 topic=x742f30 qos=2 retain=0 payload=x0000",
+                              "eng.svc t=0 cap=4096 prefill=0", "eng.wc t=0", "eng.data t=0 b=x50020001",
+                              f"eng.svc t=1 cap={cap} prefill={pre}", "eng.snap"]
+                        if pk:
+                            sc.append(f"eng.data t=1 b={pk}")
+                        if tail == "svc":
+                            sc += ["eng.svc t=2 cap=4096 prefill=0", "eng.snap"]
+                        elif tail == "wc-svc":
+                            sc += ["eng.wc t=2", "eng.svc t=2 cap=4096 prefill=0", "eng.snap"]
+                        else:
+                            sc += ["eng.close t=2", "eng.snap", "eng.open t=3 deadline=1000", "eng.svc t=3 cap=4096 prefill=0", "eng.wc t=3",
+                                   f"eng.data t=3 b={'x20020100' if v == '311' else 'x2003010000'}", "eng.svc t=4 cap=4096 prefill=0", "eng.snap"]
+                        sc += ["eng.reset t=9", "eng.snap"]
+                        scripts.append(sc)
+    reqs, starts = [], []
+    for sc in scripts:
+        starts.append(len(reqs))
+        reqs.append("session.reset")
+        reqs += sc
+    impl = harness_batch(reqs)
+    model = driver_batch(reqs)
+    ok, nopanic, bad = True, True, 0
+    for k, st in enumerate(starts):
+        end = starts[k + 1] if k + 1 < len(starts) else len(reqs)
+        report.case("|".join(reqs[st + 1:end]))
+        for i in range(st, end):
+            a = impl[i]
+            if a.startswith("res=panic") or a == "res=died":
+                if bad < 3:
+                    report.add_finding(Finding(prop, "mon:" + label, {"clause": "panic", "verb": reqs[i].split(" ")[0]},
+                                               "engine panicked: an acknowledgement arrived while the PUBREL was queued / half written: " + a[:120], reqs[st + 1:i + 1]))
+                nopanic = False
+                bad += 1
+                break
+        for i in range(st, end):
+            a, b = impl[i], model[i]
+            if a.startswith("res=panic") or a == "res=died":
+                break
+            if canon(a) != canon(b):
+                if bad < 6:
+                    report.add_finding(Finding(prop, "corr:" + label, {"clause": "model-vs-impl", "verb": reqs[i].split(" ")[0]},
+                                               "PUBREL race scenario: implementation and model disagree", reqs[st + 1:i + 1] + ["# impl:  " + a[:400], "# model: " + b[:400]], has_input=False))
+                ok = False
+                bad += 1
+                break
+    report.count(label + ".scenarios", len(scripts))
+    report.obligation("corr:" + label, "correspondence", ok, f"{len(scripts)} scripted scenarios (buffer splits x ack kinds x continuations x versions), every response compared")
+    report.obligation("mon:" + label + "-no-panic", "monitor", nopanic, "no panic on any of them")
+    return ok and nopanic
